@@ -3,6 +3,7 @@ NEXT Next
 CONSTANTS
   FlatLen = 4
   Mode = "flat"
+  Small = FALSE
 INVARIANT Sane
 INVARIANT ImplSatisfiesProperty
 INVARIANT ImplShape
